@@ -815,6 +815,7 @@ pub fn c10(sc: &Scenario, rr: &RunResult) -> Vec<Violation> {
     let reference = Interp::run(sc);
     out.extend(check_sinks("C10", sc, rr, &reference, false));
     out.extend(probe_expectations("C10", sc, rr, &reference));
+    out.extend(crate::oracle2::replay_refeeds("C10", sc, rr, false));
     // every read of the loop state inside the body: exactly the state produced by the previous round
     for o in &rr.rec.state_obs {
         if reference.unpredictable_loops.contains(&o.loop_path) {
